@@ -468,7 +468,16 @@ fn replay_event(e: &Value, r: &mut StdRng, consts: &Consts) -> Option<Value> {
         Some("own") if e.get("tree").is_some() => {
             let flags = names_from_json(&e["flags"]);
             let ps = e["pseed"].as_str().and_then(|x| x.parse::<u64>().ok());
-            Some(own_event(&Sx::from_json(&e["tree"]), &flags, e["vis"].as_str() == Some("mempool"), consts, "replay", ps))
+            let d = &e["consts"];
+            let cc = if d.get("me").is_some() {
+                Consts::from_doms([
+                    from_jbytes(&d["me"]), from_jbytes(&d["parent"]), from_jbytes(&d["puzzle"]), from_jbytes(&d["amount"]),
+                    from_jbytes(&d["puzzle_amount"]), from_jbytes(&d["parent_amount"]), from_jbytes(&d["parent_puzzle"]),
+                ])
+            } else {
+                Consts::from_doms(consts.doms.clone())
+            };
+            Some(own_event(&Sx::from_json(&e["tree"]), &flags, e["vis"].as_str() == Some("mempool"), &cc, "replay", ps))
         }
         Some("probe") => Some(hint_repr_probe(consts)),
         _ => None,
@@ -660,6 +669,7 @@ fn own_event(tree: &Sx, flag_names: &[String], mempool: bool, consts: &Consts, s
     ev["pseed"] = json!(perturb_seed.map(|x| x.to_string()).unwrap_or_default());
     ev["flags"] = json!(flag_names);
     ev["vis"] = json!(if mempool { "mempool" } else { "empty" });
+    ev["consts"] = consts.to_json();
     if ev["ok"].as_bool() == Some(true) {
         ev["tree"] = tree.to_jsonf();
     }
